@@ -36,8 +36,8 @@ PROPS = {
             "penalty_le_90pct", "split_accounted", "split_all_to_collector_when_no_active_farm",
             "split_all_to_collector_when_share_rounds_to_zero", "owner_share_is_half",
             "MantraDex.C09Sys.emergency_withdraw_tx_effect", "MantraDex.C09Sys.uniqueOwners_nodup",
-            "MantraDex.C02Live.emergency_withdraw_live_partial", "MantraDex.MonSoundB.monWithdrawPos_emergency_sound"],
-        "extra_modules": ["MantraDex.Properties.C09Sys", "MantraDex.Properties.C02Live", "MantraDex.Properties.MonSoundB"],
+            "MantraDex.C02Live.emergency_withdraw_live_partial", "MantraDex.MonSoundB.monWithdrawPos_emergency_sound", "MantraDex.NonVac2.monWithdrawPos_emergency_sound_applies"],
+        "extra_modules": ["MantraDex.Properties.C09Sys", "MantraDex.Properties.C02Live", "MantraDex.Properties.MonSoundB", "MantraDex.Properties.NonVacuity2"],
         "streams": {"farmmath": (6000, 300000), "fm_hist": (120, 3000)},
         "what": "THROUGH THE RUNTIME (C09Sys.emergency_withdraw_tx_effect): an accepted emergency withdrawal is signed by the position's owner, deletes the "
                 "position, leaves farms and the pool manager untouched, and moves EXACTLY: amount - penalty to the owner, the same share to every distinct owner of "
@@ -87,9 +87,9 @@ PROPS = {
                      "MantraDex.NonVacuity.w0_allInv", "MantraDex.NonVacuity.hist_effective", "MantraDex.NonVacuity.instance_custody",
                      "MantraDex.C01Exact.excess_tx_exact", "MantraDex.C01Exact.excess_history_exact",
                      "MantraDex.C01Exact.Cx.pmCollector_needed", "MantraDex.C01Exact.Cx.fmCollector_needed", "MantraDex.C01Exact.Cx.farmOwners_needed",
-                     "MantraDex.C01Exact.Cx.swapReceiver_needed", "MantraDex.C01Exact.Cx.routeReceiver_needed", "MantraDex.C01Exact.Cx.oddUnit_instance", "MantraDex.MonSound.monPmExcess_sound", "MantraDex.MonSoundC.monPmCustody_sound", "MantraDex.MonSoundC.monPmCustody_locked_sound"],
+                     "MantraDex.C01Exact.Cx.swapReceiver_needed", "MantraDex.C01Exact.Cx.routeReceiver_needed", "MantraDex.C01Exact.Cx.oddUnit_instance", "MantraDex.MonSound.monPmExcess_sound", "MantraDex.MonSoundC.monPmCustody_sound", "MantraDex.MonSoundC.monPmCustody_locked_sound", "MantraDex.NonVac2.monPmExcess_sound_applies", "MantraDex.NonVac2.monPmExcess_sound_applies_gift", "MantraDex.NonVac2.monPmExcess_sound_applies_odd"],
         "extra_modules": ["MantraDex.Properties.C01Sys", "MantraDex.Properties.C02Sys", "MantraDex.Properties.C01All", "MantraDex.Properties.NonVacuity",
-                          "MantraDex.Properties.C01Exact", "MantraDex.Properties.MonSound", "MantraDex.Properties.MonSoundC"],
+                          "MantraDex.Properties.C01Exact", "MantraDex.Properties.MonSound", "MantraDex.Properties.MonSoundC", "MantraDex.Properties.NonVacuity2"],
         "streams": {"pm_hist": (160, 4000), "faults": (45, 1500)},
         "what": "handler-level conservation law of the pool manager for every non-LP token: reserves' + outflow(messages) = reserves + inflow(funds) "
                 "for swap, routed swap (any length), withdraw, multi-asset deposit, pool creation (keeps nothing), config/ownership; the single-asset "
@@ -155,7 +155,7 @@ PROPS = {
                 "funds, non-privileged messages never change config or ownership; farm expansion needs the farm owner, farm closing the farm owner or "
                 "the contract owner; closing/withdrawing a position needs its owner, expanding the owner or the pool manager, creating for someone else "
                 "the pool manager. The auth stream enumerates the complete matrix ownership state x contract x variant x sender role x funds on the "
-                "implementation (exhaustive: 900 combinations). THROUGH THE RUNTIME (C15Sys): whatever a transaction contains (nested calls, replies, rollbacks, faults), "
+                "implementation (exhaustive: 1512 combinations, incl. a proposal withdrawn or replaced by the owner). THROUGH THE RUNTIME (C15Sys): whatever a transaction contains (nested calls, replies, rollbacks, faults), "
                 "the configuration, ownership and per-pool switches of the pool manager / the configuration and ownership of the farm manager / the epoch manager's state / the fee "
                 "collector's ownership change only if the transaction IS a privileged message sent directly to that contract with no funds by its owner (or, for accept, the pending "
                 "owner); a position is exactly as it was after any transaction not signed by its owner and every new position belongs to the signer (the pool manager acts only for the "
@@ -194,8 +194,8 @@ PROPS = {
                      "MantraDex.C17Sys.lp_supply_increase_names_pool", "MantraDex.C17Sys.swaps_disabled_reserves_frozen",
                      "MantraDex.C17Sys.swaps_disabled_reserves_frozen_of_ids", "MantraDex.C17Sys.deposits_disabled_no_mint",
                      "MantraDex.C17Sys.withdrawals_disabled_no_burn", "MantraDex.C17Sys.toggle_tx_only_named_pool",
-                     "MantraDex.C17Sys.created_pool_enabled"],
-        "extra_modules": ["MantraDex.Properties.C17NI", "MantraDex.Properties.C17Sys", "MantraDex.Properties.C17Tx"],
+                     "MantraDex.C17Sys.created_pool_enabled", "MantraDex.NonVac2.tx_more_enabled_simulates_applies", "MantraDex.NonVac2.runTx_sim_applies", "MantraDex.NonVac2.tx_rejected_only_by_switch_applies"],
+        "extra_modules": ["MantraDex.Properties.C17NI", "MantraDex.Properties.C17Sys", "MantraDex.Properties.C17Tx", "MantraDex.Properties.NonVacuity2"],
         "streams": {"pm_hist": (160, 4000), "twin": (120, 3000)},
         "what": "swaps disabled: direct swap rejected, any route through the pool rejected as a whole, a single-asset deposit's whole transaction "
                 "rejected (through the runtime: its inner swap is a reply-on-success sub-message); deposits disabled: every deposit shape rejected; "
@@ -240,8 +240,8 @@ PROPS = {
                      "MantraDex.C02Sys.lp_supply_ge_min_reachable", "MantraDex.C02Sys.lp_supply_moves_only_by_deposit_or_withdrawal",
                      "MantraDex.C02Sys.lp_funded_step", "MantraDex.C03Sys.cp_value_per_lp_step", "MantraDex.C03Sys.cp_value_per_lp_reachable",
                      "MantraDex.C16Tx.withdraw_liquidity_tx_effect_partial", "MantraDex.C16Tx.provide_liquidity_tx_effect_partial",
-                     "MantraDex.C02Live.withdraw_liquidity_live_partial", "MantraDex.MonSound.monWithdraw_sound", "MantraDex.MonSound.monCpDeposit_sound_partial", "MantraDex.MonSound.monCpDeposit_sound_counterexample"],
-        "extra_modules": ["MantraDex.Properties.C02Sys", "MantraDex.Properties.C03Sys", "MantraDex.Properties.C16Tx", "MantraDex.Properties.C02Live", "MantraDex.Properties.MonSound"],
+                     "MantraDex.C02Live.withdraw_liquidity_live_partial", "MantraDex.MonSound.monWithdraw_sound", "MantraDex.MonSound.monCpDeposit_sound_partial", "MantraDex.MonSound.monCpDeposit_sound_counterexample", "MantraDex.NonVac2.monWithdraw_sound_applies", "MantraDex.NonVac2.monCpDeposit_sound_partial_applies"],
+        "extra_modules": ["MantraDex.Properties.C02Sys", "MantraDex.Properties.C03Sys", "MantraDex.Properties.C16Tx", "MantraDex.Properties.C02Live", "MantraDex.Properties.MonSound", "MantraDex.Properties.NonVacuity2"],
         "streams": {"mintmath": (3000, 150000), "pm_hist": (160, 4000)},
         "what": "constant product: later mint = min over the two assets of floor(deposit*supply/reserve) <= the proportional contribution; x*y/supply^2 "
                 "never decreases through a deposit or a withdrawal; first mint + locked 1000 = floor(sqrt(d0*d1)); a withdrawal pays floor(reserve*burned/"
@@ -265,8 +265,8 @@ PROPS = {
         "theorems": ["newton_ok_is_near_fixpoint", "newton_zero_fuel", "stableswap_y_is_near_fixpoint", "G_strictMono", "G_mono", "dCert_unique",
                      "dCert_sound", "bisect_flips", "ss_output_le_reserve",
                      "yStep_near_fixpoint_brackets_root", "root_floor_unique", "calculateStableswapY_eq", "stableswap_y_within_one_of_root",
-                     "stableswap_y_never_wrong"],
-        "extra_modules": ["MantraDex.Properties.C19Y"],
+                     "stableswap_y_never_wrong", "MantraDex.NonVac2.stableswap_y_within_one_of_root_applies", "MantraDex.NonVac2.stableswap_y_never_wrong_applies"],
+        "extra_modules": ["MantraDex.Properties.C19Y", "MantraDex.Properties.NonVacuity2"],
         "streams": {"swapmath": (6000, 300000), "mintmath": (3000, 150000)},
         "what": "the Newton loops return a value only when two successive iterates are within the threshold, else ConvergeError (never a non-converged "
                 "value); the y-solver returns near-fixpoints of its integer step, AND (C19Y) every value calculate_stableswap_y returns is floor(root) or "
@@ -282,8 +282,8 @@ PROPS = {
         "module": "MantraDex.Properties.C03", "ns": "MantraDex.C03",
         "theorems": ["cp_gross_formula", "cp_swap_k_mono", "performSwap_k_mono", "cp_round_trip_no_profit", "ss_swap_D_witness",
                      "MantraDex.C03Sys.cp_value_per_lp_step", "MantraDex.C03Sys.cp_value_per_lp_reachable",
-                     "MantraDex.C03NoDrain.no_history_drains_pool", "MantraDex.C03NoDrain.not_both_down", "MantraDex.MonSoundB.monSwapReserves_sound"],
-        "extra_modules": ["MantraDex.Properties.C03Sys", "MantraDex.Properties.C03NoDrain", "MantraDex.Properties.MonSoundB"],
+                     "MantraDex.C03NoDrain.no_history_drains_pool", "MantraDex.C03NoDrain.not_both_down", "MantraDex.MonSoundB.monSwapReserves_sound", "MantraDex.NonVac2.monSwapReserves_sound_applies", "MantraDex.NonVac2.no_history_drains_pool_applies"],
+        "extra_modules": ["MantraDex.Properties.C03Sys", "MantraDex.Properties.C03NoDrain", "MantraDex.Properties.MonSoundB", "MantraDex.Properties.NonVacuity2"],
         "streams": {"swapmath": (4000, 200000), "pm_hist": (120, 3000)},
         "what": "constant product: gross output = floor(Y*o/(X+o)); x*y never decreases through compute_swap / perform_swap for every reserve, "
                 "offer and fee setting incl. zero fees; a swap-and-swap-back round trip never returns more than was put in. THROUGH THE RUNTIME (C03Sys): for every "
@@ -299,8 +299,8 @@ PROPS = {
         "module": "MantraDex.Properties.C04", "ns": "MantraDex.C04",
         "theorems": ["fee_is_floor_share", "fee_never_more", "computeFees_ok", "net_is_gross_minus_fees", "computeSwap_split",
                      "performSwap_ok", "swapHandler_messages", "routeHops_chain", "routeHops_fee_msgs",
-                     "MantraDex.C04Sys.swap_tx_effect", "MantraDex.C12Sys.route_tx_effect", "MantraDex.MonSoundB.monSwapReserves_sound", "MantraDex.MonSoundB.monSwapBank_sound", "MantraDex.MonSoundC.monSwapFees_sound"],
-        "extra_modules": ["MantraDex.Properties.C04Sys", "MantraDex.Properties.C12Sys", "MantraDex.Properties.MonSoundB", "MantraDex.Properties.MonSoundC"],
+                     "MantraDex.C04Sys.swap_tx_effect", "MantraDex.C12Sys.route_tx_effect", "MantraDex.MonSoundB.monSwapReserves_sound", "MantraDex.MonSoundB.monSwapBank_sound", "MantraDex.MonSoundC.monSwapFees_sound", "MantraDex.NonVac2.monSwapBank_sound_applies"],
+        "extra_modules": ["MantraDex.Properties.C04Sys", "MantraDex.Properties.C12Sys", "MantraDex.Properties.MonSoundB", "MantraDex.Properties.MonSoundC", "MantraDex.Properties.NonVacuity2"],
         "streams": {"swapmath": (4000, 200000), "pm_hist": (120, 3000)},
         "what": "each fee = floor(gross*share) (never more); receiver gets gross minus all fees; perform_swap adds the offer in full and removes "
                 "exactly net+protocol+burn from the ask reserve, nothing else changes; a direct swap emits exactly [send net to receiver][burn]"
@@ -348,8 +348,8 @@ PROPS = {
                      "MantraDex.C06Sys.claim_pays_entries", "MantraDex.C06Sys.entry_shape",
                      "MantraDex.C07Sys.owed_frozen_partial", "MantraDex.C07Sys.claim_never_exhausted", "MantraDex.C07Sys.claimed_eq_ledger",
                      "MantraDex.C07Q.query_eq_claim_partial", "MantraDex.C07Q.query_nonempty_claim_pays_or_refuses_partial",
-                     "MantraDex.C07Q.query_eq_claim_counterexample", "MantraDex.MonSoundD.monClaim_sound_partial", "MantraDex.MonSoundD.monClaim_sound_of_invariants"],
-        "extra_modules": ["MantraDex.Properties.C07Split", "MantraDex.Properties.C06Sys", "MantraDex.Properties.C07Sys", "MantraDex.Properties.C07Q", "MantraDex.Properties.MonSoundD"],
+                     "MantraDex.C07Q.query_eq_claim_counterexample", "MantraDex.MonSoundD.monClaim_sound_partial", "MantraDex.MonSoundD.monClaim_sound_of_invariants", "MantraDex.NonVac2.query_eq_claim_partial_applies"],
+        "extra_modules": ["MantraDex.Properties.C07Split", "MantraDex.Properties.C06Sys", "MantraDex.Properties.C07Sys", "MantraDex.Properties.C07Q", "MantraDex.Properties.MonSoundD", "MantraDex.Properties.NonVacuity2"],
         "streams": {"fm_hist": (160, 4000)},
         "also_tags": ["C06-overpaid"],   # C07 says "never more": the ledger monitor's over-payment tag decides C07 as well
         "what": "refinement core: the user scan and the total-weight scan of the compacted history compute the ledger's weight in effect (Spec.weightAt); "
@@ -470,8 +470,8 @@ PROPS = {
                      "MantraDex.C12Sys.swap_tx_within_slippage", "MantraDex.C12Sys.route_tx_min_receive", "MantraDex.C20Tx.swap_tx_belief_price",
                      "MantraDex.C13Tx.provide_tx_within_tolerance", "MantraDex.C13Tx.provide_tx_within_tolerance_locked",
                      "MantraDex.C13Tx.provide_tx_tolerance_monotone", "MantraDex.C13Tx.provide_tx_tolerance_monotone_any",
-                     "MantraDex.C13Tx.provide_tx_tolerance_above_one_refused_partial", "MantraDex.C13Tx.provide_tx_tolerance_above_one_unchanged", "MantraDex.MonSoundC.monCpSlippage_sound"],
-        "extra_modules": ["MantraDex.Properties.C12Sys", "MantraDex.Properties.C20Tx", "MantraDex.Properties.C13Tx", "MantraDex.Properties.MonSoundC"],
+                     "MantraDex.C13Tx.provide_tx_tolerance_above_one_refused_partial", "MantraDex.C13Tx.provide_tx_tolerance_above_one_unchanged", "MantraDex.MonSoundC.monCpSlippage_sound", "MantraDex.NonVac2.provide_tx_within_tolerance_applies", "MantraDex.NonVac2.provide_tx_tolerance_monotone_applies", "MantraDex.NonVac2.tol1_refuses"],
+        "extra_modules": ["MantraDex.Properties.C12Sys", "MantraDex.Properties.C20Tx", "MantraDex.Properties.C13Tx", "MantraDex.Properties.MonSoundC", "MantraDex.Properties.NonVacuity2"],
         "streams": {"swapmath": (4000, 200000), "mintmath": (4000, 200000), "pm_hist": (120, 3000)},
         "what": "swap/route: accept iff slippage/(return+slippage) <= min(tolerance or 1%, 50%) (or, with a belief price, iff return >= expected or "
                 "short by <= tolerance); monotone in the tolerance; > 50% capped; routes deliver >= minimum_receive or fail; constant-product deposit: "
